@@ -1036,15 +1036,13 @@ theorem never_exceeds_window_conn {W : Nat} {chs : List (Nat × List (Nat × Byt
     obtain ⟨c0, hc0, hceq⟩ := proj_some hc
     have hw := stepC_wires (.send k) hstc
     simp only at hw
-    have hproj' : proj { m with chans := m.chans.set ch { c' with dataWire := [], adjWire := [] },
-        dataWire := m.dataWire ++ (c'.dataWire.drop c.dataWire.length).map (fun p => (ch, p)) } ch = some c' := by
-      apply proj_same hc0
+    refine ⟨c, c', hc, ?_, ?_⟩
+    · apply proj_same hc0
       · rw [dwOf_append, dwOf_tag_same]
         have : dwOf ch m.dataWire = c.dataWire := by rw [hceq]
         rw [this]; exact hw.1.symm
       · have : awOf ch m.adjWire = c.adjWire := by rw [hceq]
         rw [this]; exact hw.2.symm
-    refine ⟨c, c', rfl, hproj', ?_⟩
     intro hused
     obtain ⟨code, p, hdw, hp0, hp1, hp2, _, hp4⟩ := never_exceeds_window_multi hset k hr hstc hused
     refine ⟨code, p, ?_, hp0, hp1, hp2, hp4⟩
